@@ -349,7 +349,7 @@ let cmd_sdt () =
 (* gen <file>: the Gallina model of gocc's LR(1) generator. File: line1 "nn ntm terr", line2 productions "lhs:sym sym;lhs:;..."
    (sym = T<n> | N<n>), line3 symbols, line4 la_order, line5 p_acts (0/1).  Prints KIND then per state:
    "I p,k,la p,k,la ... | T sym>state ... | A codes | R 0/1 | G gotos" *)
-let cmd_gen file =
+let cmd_gen ?(auto=false) file =
   let ic = open_in file in
   let l1 = words (input_line ic) in
   let psym w = let n = nat_of_int_tr (int_of_string (String.sub w 1 (String.length w - 1))) in if w.[0] = 'T' then T n else NT n in
@@ -375,6 +375,15 @@ let cmd_gen file =
         print_endline (Printf.sprintf "%s | A %s | R %d | G %s" base (String.concat " " (List.map (fun a -> string_of_int (enc a)) r.s_actions))
           (if r.s_recover then 1 else 0) (String.concat " " (List.map (fun z -> string_of_int (int_of_z z)) r.s_gotos)))
       | None -> print_endline base) an.a_items in
+  if auto then
+    (* mode -a: "AUTO <announced conflicts>" then the rows with the RESOLVED action cells, or "REFUSED" *)
+    match gen_run_auto g (nat_of_int_tr nn) (nat_of_int_tr ntm) symbols la pacts (nat_of_int_tr terr) (nat_of_int_tr 100000) with
+    | AutoOk (tb, an, tr, n) -> print_endline ("AUTO " ^ string_of_int (int_of_nat n)); show_auto an tr (Some tb)
+    | AutoRefused (an, tr) -> print_endline "REFUSED"; show_auto an tr None
+    | AutoIllFormed -> print_endline "ILLFORMED"
+    | AutoFirstUnstable -> print_endline "FIRSTUNSTABLE"
+    | AutoFuel -> print_endline "FUEL"
+  else
   match gen_run g (nat_of_int_tr nn) (nat_of_int_tr ntm) symbols la pacts (nat_of_int_tr terr) (nat_of_int_tr 100000) with
   | GenOk (tb, an, tr) -> print_endline "OK"; show_auto an tr (Some tb)
   | GenConflict (an, tr, cells) ->
@@ -384,9 +393,46 @@ let cmd_gen file =
   | GenFirstUnstable -> print_endline "FIRSTUNSTABLE"
   | GenFuel -> print_endline "FUEL"
 
+(* frontsem <table file> <fuel per token> colon semi bar tokId regDefId ignoredTokId prodId string_lit error empty :
+   the front-end model (Front/Sem.v): parser on the shipped tables + semantic checks.  stdin: one token list per line
+   "type:hexliteral ..." (front-end type numbers, EOF omitted); stdout "ACC|REJ PARSE=ok|rej SEM=ok|<reason> <hex names>" *)
+let cmd_frontsem file fpt nums =
+  let tb = read_tables file in
+  let n = Array.of_list (List.map (fun s -> z_of_int (int_of_string s)) nums) in
+  let ft = { ft_colon = n.(0); ft_semi = n.(1); ft_bar = n.(2); ft_tokId = n.(3); ft_regDefId = n.(4);
+             ft_ignoredTokId = n.(5); ft_prodId = n.(6); ft_string_lit = n.(7); ft_error = n.(8); ft_empty = n.(9) } in
+  let show_reason = function
+    | RDupTok n -> "dup-tok " ^ hex_encode n
+    | RDupRegDef n -> "dup-regdef " ^ hex_encode n
+    | RDupIgn n -> "dup-ign " ^ hex_encode n
+    | REmptyAlt p -> "empty-alt " ^ hex_encode p
+    | RReservedProd p -> "reserved-prod " ^ hex_encode p
+    | RReservedSym (s, p) -> "reserved-sym " ^ hex_encode s ^ " " ^ hex_encode p
+    | RUndefinedProd s -> "undefined-prod " ^ hex_encode s
+    | RUndefinedRegDef (r, d) -> "undefined-regdef " ^ hex_encode r ^ " " ^ hex_encode d
+    | RStrLitProd s -> "strlit-prod " ^ hex_encode s
+    | RStrLitEmpty -> "strlit-empty"
+    | RStrLitLex s -> "strlit-lex " ^ hex_encode s
+    | RRecursiveRegDef d -> "recursive-regdef " ^ hex_encode d in
+  iter_lines (fun line ->
+    let toks = List.map (fun w ->
+      match String.index_opt w ':' with
+      | Some i -> { f_type = z_of_int (int_of_string (String.sub w 0 i));
+                    f_lit = hex_decode (String.sub w (i + 1) (String.length w - i - 1));
+                    f_off = Z0; f_line = Z0; f_col = Z0 }
+      | None -> failwith "bad token") (words line) in
+    let fuel = nat_of_int_tr (fpt * (List.length toks + 2)) in
+    let p = parse_ok tb fuel toks in
+    let v = sem_verdict ft toks in
+    let acc = front_accepts ft tb fuel toks in
+    print_endline (Printf.sprintf "%s PARSE=%s SEM=%s" (if acc then "ACC" else "REJ") (if p then "ok" else "rej")
+      (match v with SemOk -> "ok" | SemReject r -> show_reason r)))
+
 let () =
   match Array.to_list Sys.argv with
+  | _ :: "frontsem" :: file :: fpt :: nums when List.length nums = 10 -> cmd_frontsem file (int_of_string fpt) nums
   | _ :: "gen" :: file :: _ -> cmd_gen file
+  | _ :: "genauto" :: file :: _ -> cmd_gen ~auto:true file
   | _ :: "sdt" :: _ -> cmd_sdt ()
   | _ :: "firstsets" :: _ -> cmd_firstsets ()
   | _ :: "fscan" :: _ -> cmd_fscan ()
